@@ -33,7 +33,7 @@ MANIFEST = {
     "note": ("Trusted: rustc front end and MIR drop elaboration; std::io::Stdout::lock is a (reentrant) mutual-exclusion lock and "
              "AtomicUsize load/store(SeqCst) are linearizable. Not analysed: cfg(windows) code other than the mounted "
              "anstream/src/wincon.rs."),
-    "technique": "static analysis: sealed-trait / impl-set facts, impl-item exhaustiveness, per-path lock-acquisition count, MIR drop placement (dominance), macro-expansion reading, who-may-access on the atomic, the register codec by evaluation",
+    "technique": "static analysis: sealed-trait / impl-set facts, impl-item exhaustiveness, per-path lock-acquisition count, MIR drop placement (dominance), macro-expansion reading, who-may-access on the atomic, who-may-call of write_global over every crate (no hidden writer), the register codec by evaluation",
 }
 
 METHODS = ["write", "write_vectored", "flush", "write_all", "write_fmt"]
